@@ -71,6 +71,10 @@ CLAIMED = {
    text="Each of the 585 case bodies (Vanilla world messages, login messages per protocol version and direction) is parsed into walk items and compared with the reference layout of the definition: order, widths, endianness flags, string/guid/mask helpers, loop bounds and their count variables, if / else-if chains (every declared enumerator, every flag arm; constants resolved through enums.txt), optional tails, compressed blocks, inlined structs, and no item after the last member; 76 member-less messages may fall to the empty default; cases and messages are in bijection; all 852 hf_ fields are declared and registered, all 167 constants defined, every steering variable declared and assigned before use.",
    note="the dissector's helper functions are trusted to consume their built-in type; regenerating the files is not decided; two genuine defects of the artefact are known findings (IpAddress read little-endian; login version grouping drops security_flag / protocol 3 reconnect)",
    ref="§3 C17"),
+ "C18": dict(level="translation_validation", tech="parse-back of every embedded wowm block (doc pages and generated Rust doc comments) with an independent wowm parser and AST comparison with the linked source object + body-table and example-annotation rules",
+   text="All 1,720 wowm blocks of the 1,437 documentation pages and all 2,057 generated Rust doc comments are parsed back and must equal the source object their link names (kind, name, opcode, base type, enumerators and values, member order, types, upcasts, arrays, constants, if / else-if / else conditions, optional blocks); the 1,686 body tables must list exactly the definition's members in order with the size/endianness of fixed-width built-ins; the byte groups of the 175 documented examples must concatenate to the bytes of a wowm test of that definition (plain prefix for compressed payloads) with top-level field comments in definition order.",
+   note="prose, links' targets on the web and per-member comments are not compared; decompressed payloads in examples are not inflated; two genuine defects of the artefacts are known findings (13 stale pages, SizedCString example line)",
+   ref="§3 C18"),
 }
 NA_REASONS = {}
 DEFAULT_NA = "check under construction in this round (see DESIGN.md); will be claimed once its rule module is committed"
